@@ -91,6 +91,81 @@ def producer_partition(tier, seed):
     return cases, fails
 
 
+def wire_metadata(version, brokers, topic, parts):
+    """MetadataResponse v0..v5 written byte by byte from the Kafka protocol's message definition (independent of the
+    schema classes in aiokafka/protocol/metadata.py): node ids and leaders are signed INT32, -1 meaning 'none'"""
+    import struct
+    i16 = lambda v: struct.pack(">h", v)
+    i32 = lambda v: struct.pack(">i", v)
+    def st(x):
+        return i16(-1) if x is None else i16(len(x.encode())) + x.encode()
+    arr = lambda items: i32(len(items)) + b"".join(items)
+    out = b""
+    if version >= 3:
+        out += i32(0)                                                   # throttle_time_ms
+    out += arr([i32(n) + st(h) + i32(p) + (st(None) if version >= 1 else b"") for n, h, p in brokers])
+    if version >= 2:
+        out += st("cluster")                                            # cluster_id
+    if version >= 1:
+        out += i32(brokers[0][0])                                       # controller_id
+    plist = [i16(err) + i32(pid) + i32(leader) + arr([i32(r) for r in (0, 1, 2)]) + arr([i32(r) for r in (0, 1)])
+             + (arr([]) if version >= 5 else b"") for err, pid, leader in parts]
+    out += arr([i16(0) + st(topic) + (b"\x00" if version >= 1 else b"") + arr(plist)])
+    return out
+
+
+def metadata_over_the_wire(tier, seed):
+    """'An unkeyed record goes to an available partition whenever at least one is available': availability is read from the
+    metadata reply the broker sent. Every reply version the client asks for (v0..v5), written by wire_metadata(), decoded by
+    the repository's schema class, applied to a real ClusterMetadata: the partitions without a leader (-1 on the wire) are
+    the unavailable ones, and the real AIOKafkaProducer._partition sends unkeyed records to the others."""
+    import io
+    from aiokafka.cluster import ClusterMetadata
+    from aiokafka.partitioner import DefaultPartitioner
+    from aiokafka.producer.producer import AIOKafkaProducer
+    from aiokafka.protocol import metadata as M
+    rnd = random.Random(seed)
+    fails, cases = [], 0
+    for version in range(0, 6):
+        cls = getattr(M, "MetadataResponse_v%d" % version)
+        for n in (1, 2, 5, 12):
+            for trial in range(3):
+                leaders = {p: (-1 if (rnd.random() < 0.4 or (trial == 0 and p == 0)) else rnd.choice([0, 1, 2])) for p in range(n)}
+                parts = [(5 if leaders[p] == -1 else 0, p, leaders[p]) for p in range(n)]
+                raw = wire_metadata(version, [(0, "h0", 9092), (1, "h1", 9092), (2, "h2", 9092)], "t", parts)
+                cases += 1
+                what = {"version": version, "leaders": leaders}
+                try:
+                    buf = io.BytesIO(raw)
+                    resp = cls.decode(buf)
+                    left = len(buf.read())
+                except Exception as e:
+                    fails.append(dict(what, problem="reply not decoded: %s" % type(e).__name__))
+                    continue
+                if left:
+                    fails.append(dict(what, problem="%d bytes of the reply left undecoded" % left))
+                    continue
+                cluster = ClusterMetadata()
+                cluster.update_metadata(resp)
+                led = {p for p in leaders if leaders[p] != -1}
+                avail = set(cluster.available_partitions_for_topic("t") or ())
+                if avail != led or set(cluster.partitions_for_topic("t") or ()) != set(leaders):
+                    fails.append(dict(what, problem="available partitions %r, partitions with a leader %r" % (sorted(avail), sorted(led))))
+                    continue
+
+                class P:
+                    pass
+                prod = P()
+                prod._metadata = cluster
+                prod._partitioner = DefaultPartitioner()
+                for _ in range(10):
+                    got = AIOKafkaProducer._partition(prod, "t", None, None, b"v", None, b"v")
+                    if (led and got not in led) or got not in leaders:
+                        fails.append(dict(what, problem="unkeyed record sent to partition %r" % got))
+                        break
+    return cases, fails
+
+
 def main():
     ap = argparse.ArgumentParser()
     ap.add_argument("--tier", default="quick")
@@ -111,6 +186,22 @@ def main():
                    "keys of length 0..2 over {00,7f,80,ff} plus seeded random keys compared with the Java client's hash %% n, and "
                    "20 unkeyed sends per layout which must land on a partition that has a leader; seed %d" % a.seed,
           "failures": fails, "replay": {"script": REPLAY_PRODUCER % a.seed}})
+
+
+    n, fails = metadata_over_the_wire(a.tier, a.seed)
+    emit({"name": "availability-from-metadata-replies-v0-v5", "exhaustive": False, "cases": n, "distinct_nontrivial": n,
+          "bound": "MetadataResponse v0..v5 written from the protocol definition by an independent encoder, 1..12 partitions, about "
+                   "40%% without a leader (-1), decoded by the schema classes into a real ClusterMetadata; 10 unkeyed sends each; seed %d" % a.seed,
+          "failures": fails[:10], "replay": {"script": REPLAY_WIRE % a.seed}})
+
+
+REPLAY_WIRE = '''
+import sys
+sys.path.insert(0, "/verif")
+from bounded import C17
+n, fails = C17.metadata_over_the_wire("quick", %d)
+VIOLATED = bool(fails); DETAIL = "%%d of %%d metadata replies left the producer with wrong availability; first: %%r" %% (len(fails), n, fails[:1])
+'''
 
 
 REPLAY_PRODUCER = '''
